@@ -36,12 +36,16 @@ theorem name_facts_pinned :
     Facts.validatePluginNameTest = "name==\"\"||name==\".\"||name==\"..\"||strings.ContainsAny(name,\"/\\\\\\x00\")" := by
   decide
 
-/-- in `Install` every check (locating, name, new metadata, existing plugin, versions) comes
-before the removal of the old directory, and only the copy follows it -/
+/-- in `Install` every check (locating, name, new metadata, existing plugin, versions, "the
+source is not inside the plugin's own directory") comes before the removal of the old
+directory, and only the copy follows it -/
 theorem removal_after_all_checks :
     Facts.installCalls = ["parsePluginFromDir", "parsePluginName", "isExecutableFile", "validatePluginName",
       "NewCLIPlugin", "newPlugin.GetMetadata", "m.Get", "existingPlugin.GetMetadata",
-      "semver.ComparePluginVersion", "m.Uninstall", "file.CopyToDir", "file.CopyDirToDir"] ∧
+      "semver.ComparePluginVersion", "isPathWithin", "m.Uninstall", "file.CopyToDir", "file.CopyDirToDir"] ∧
+    Facts.installWithinGuard = "isPathWithin(installOpts.PluginPath,pluginDirPath)" ∧
+    Facts.isPathWithinCalls = ["filepath.Rel(resolve(dir),resolve(path))",
+      "strings.HasPrefix(rel,\"..\"+string(filepath.Separator))"] ∧
     Facts.uninstallCalls = ["validatePluginName", "m.pluginFS.SysPath", "os.Stat", "os.RemoveAll"] := by
   decide
 
@@ -77,15 +81,17 @@ macro "install_cases" R:ident op:ident c:ident : tactic => `(tactic| (
     | none => simp [isInstall, hk, mkStep, hn]
     | some nw =>
       simp only [ruleR]
-      cases hl : existingR $R nw.name with
-      | none => simp [isInstall, hk, mkStep, hn, hl]
-      | some p =>
-        obtain ⟨pn, pf, pv⟩ := p
-        rcases versionCheck_cases pv (Op.overwrite $op) nw.version with
-          ⟨ho, h⟩ | ⟨ho, hv, h⟩ | ⟨ho, vo, hv, h | h | h | h⟩
-        all_goals (try subst hv)
-        all_goals (rw [ho] at h)
-        all_goals simp [isInstall, hk, mkStep, h, hn, hl, ho, higher, relTo]))
+      by_cases hio : insideOwn $op nw = true
+      all_goals (
+        cases hl : existingR $R nw.name with
+        | none => simp [isInstall, hk, mkStep, hn, hl, hio]
+        | some p =>
+          obtain ⟨pn, pf, pv⟩ := p
+          rcases versionCheck_cases pv (Op.overwrite $op) nw.version with
+            ⟨ho, h⟩ | ⟨ho, hv, h⟩ | ⟨ho, vo, hv, h | h | h | h⟩
+          all_goals (try subst hv)
+          all_goals (rw [ho] at h)
+          all_goals simp [isInstall, hk, mkStep, h, hn, hl, ho, higher, relTo, hio])))
 
 /-- the root of the observable-level step is `R`, `R` minus a name, or that plus one entry -/
 macro "step_shapes" R:ident op:ident c:ident : tactic => `(tactic| (
@@ -105,7 +111,8 @@ macro "step_shapes" R:ident op:ident c:ident : tactic => `(tactic| (
     | none => simp [mkStep, isInstall, hk]
     | some nw =>
       simp only []
-      cases hr : ruleR (existingR $R nw.name) (Op.overwrite $op) nw <;> simp [mkStep, isInstall, hk]))
+      by_cases hio : insideOwn $op nw = true <;>
+        cases hr : ruleR (existingR $R nw.name) (Op.overwrite $op) nw <;> simp [mkStep, isInstall, hk, hio]))
 
 theorem spec_refusedNoop (R : List PluginObs) (op : Op) : cRefusedNoop (R, op, specStep R op) = true := by
   step_shapes R op cRefusedNoop
@@ -140,10 +147,12 @@ theorem specStep_root_mem (R : List PluginObs) (op : Op) (p : PluginObs) (hp : p
       cases hr : ruleR (existingR R nw.name) op.overwrite nw with
       | error e => simp only [hr, mkStep] at hp; exact Or.inr (Or.inl hp)
       | ok ex =>
-        simp only [hr, mkStep] at hp
-        rcases mem_putBy PluginObs.name hp with rfl | hp
-        · exact Or.inl rfl
-        · exact Or.inr (Or.inl (List.mem_filter.1 hp).1)
+        by_cases hio : insideOwn op nw = true
+        · simp only [hr, mkStep, hio, if_true] at hp; exact Or.inr (Or.inl hp)
+        · simp only [hr, mkStep, hio] at hp
+          rcases mem_putBy PluginObs.name hp with rfl | hp
+          · exact Or.inl rfl
+          · exact Or.inr (Or.inl (List.mem_filter.1 hp).1)
   | uninstall =>
     simp only [hk] at hp
     by_cases hv : validName op.name = true
@@ -196,15 +205,17 @@ theorem spec_refusalClass (R : List PluginObs) (op : Op) : cRefusalClass (R, op,
     | none => simp [isInstall, hk, mkStep, hn]
     | some nw =>
       simp only [ruleR]
-      cases hl : existingR R nw.name with
-      | none => simp [isInstall, hk, mkStep, hn, hl]
-      | some p =>
-        obtain ⟨pn, pf, pv⟩ := p
-        rcases versionCheck_cases pv op.overwrite nw.version with
-          ⟨ho, h⟩ | ⟨ho, hv, h⟩ | ⟨ho, vo, hv, h | h | h | h⟩
-        all_goals (try subst hv)
-        all_goals (rw [ho] at h)
-        all_goals simp [isInstall, hk, mkStep, h, hn, hl, ho, higher, relTo]
+      by_cases hio : insideOwn op nw = true
+      all_goals (
+        cases hl : existingR R nw.name with
+        | none => simp [isInstall, hk, mkStep, hn, hl, hio]
+        | some p =>
+          obtain ⟨pn, pf, pv⟩ := p
+          rcases versionCheck_cases pv op.overwrite nw.version with
+            ⟨ho, h⟩ | ⟨ho, hv, h⟩ | ⟨ho, vo, hv, h | h | h | h⟩
+          all_goals (try subst hv)
+          all_goals (rw [ho] at h)
+          all_goals simp [isInstall, hk, mkStep, h, hn, hl, ho, higher, relTo, hio])
 
 theorem specRun_length : ∀ (ops : List Op) (R : List PluginObs), (specRun R ops).length = ops.length := by
   intro ops; induction ops with
@@ -435,7 +446,10 @@ theorem refused_is_noop (st : State) (op : Op) (h : (step st op).1.err ≠ .ok) 
       simp only [hn] at h ⊢
       cases hr : versionRule st op.overwrite nw with
       | error e => rfl
-      | ok ex => simp [hr] at h
+      | ok ex =>
+        by_cases hio : insideOwn op nw = true
+        · simp [hio]
+        · simp [hr, hio] at h
   | uninstall =>
     simp only [hk, uninstall] at h ⊢
     by_cases hv : validName op.name = true
@@ -443,47 +457,6 @@ theorem refused_is_noop (st : State) (op : Op) (h : (step st op).1.err ≠ .ok) 
     · simp [hv]
   | plant => simp [hk] at h
   | rmexe => simp [hk] at h
-
-/-- with a usable source the outcome of Install is the outcome of the existence / version checks -/
-theorem install_err (st : State) (op : Op) (nw : New) (hn : specNew op = some nw) :
-    (install st op).1.err = (match versionRule st op.overwrite nw with | .error e => e | .ok _ => .ok) := by
-  unfold install
-  rw [locate_eq_spec]
-  have hn' : newOf op (specLocate op) = some nw := hn
-  simp only [hn']
-  cases versionRule st op.overwrite nw <;> rfl
-
-/-- **replace_iff**: an existing, answering plugin (its executable is there and reports
-version `vo`) is replaced by a usable source of the same name iff overwrite is requested or
-the new version is strictly higher -/
-theorem replace_iff (st : State) (op : Op) (nw : New) (hn : specNew op = some nw)
-    (f : File) (hf : getExe st nw.name = some f) (vo : Text) (ha : metadata nw.name f = some vo) :
-    (install st op).1.err = .ok ↔ (op.overwrite = true ∨ compareVersions nw.version vo = some .gt) := by
-  rw [install_err st op nw hn]
-  simp only [versionRule, hf, ha]
-  rcases versionCheck_cases (some vo) op.overwrite nw.version with
-    ⟨ho, h⟩ | ⟨ho, hv', h⟩ | ⟨ho, vo', hv', ⟨h1, h⟩ | ⟨h1, h⟩ | ⟨h1, h⟩ | ⟨h1, h⟩⟩
-  all_goals (try cases hv')
-  all_goals (rw [ho] at h)
-  all_goals simp [h, ho]
-  all_goals simp [h1]
-
-/-- an existing plugin whose executable is there but does not answer (malfunctioning) is
-replaced iff overwrite is requested -/
-theorem malfunctioning_replaced_iff_overwrite (st : State) (op : Op) (nw : New) (hn : specNew op = some nw)
-    (f : File) (hf : getExe st nw.name = some f) (ha : metadata nw.name f = none) :
-    (install st op).1.err = .ok ↔ op.overwrite = true := by
-  rw [install_err st op nw hn]
-  simp only [versionRule, hf, ha]
-  cases op.overwrite <;> simp [versionCheck]
-
-/-- no plugin of that name, or only a stale directory without its executable (interrupted
-installation, deleted binary): a usable source installs, with or without overwrite -/
-theorem absent_or_stale_installs (st : State) (op : Op) (nw : New)
-    (hn : specNew op = some nw) (hp : getExe st nw.name = none) :
-    (install st op).1.err = .ok := by
-  rw [install_err st op nw hn]
-  simp [versionRule, hp]
 
 theorem versionCheck_err_ne_ok {ex : Option Text} {ow : Bool} {vn : Text} {e : Err}
     (h : versionCheck ex ow vn = .error e) : e ≠ .ok := by
@@ -499,10 +472,67 @@ theorem versionRule_err_ne_ok {st : State} {ow : Bool} {nw : New} {e : Err}
   | none => simp [hg] at h
   | some f => simp only [hg] at h; exact versionCheck_err_ne_ok h
 
+/-- with a usable source that is not inside the plugin's own directory, the outcome of
+Install is the outcome of the existence / version checks -/
+theorem install_err (st : State) (op : Op) (nw : New) (hn : specNew op = some nw)
+    (ho : insideOwn op nw = false) :
+    (install st op).1.err = (match versionRule st op.overwrite nw with | .error e => e | .ok _ => .ok) := by
+  unfold install
+  rw [locate_eq_spec]
+  have hn' : newOf op (specLocate op) = some nw := hn
+  simp only [hn']
+  cases versionRule st op.overwrite nw <;> simp [ho]
+
+/-- **a source inside the plugin's own installation directory** (the directory itself, its
+executable, reached directly or through a symbolic link) **is refused, with or without
+overwrite, and nothing changes** - the clean-up would remove the source before the copy -/
+theorem own_directory_source_refused (st : State) (op : Op) (nw : New) (hn : specNew op = some nw)
+    (ho : insideOwn op nw = true) :
+    (install st op).1.err ≠ .ok ∧ (install st op).2 = st := by
+  unfold install
+  rw [locate_eq_spec]
+  have hn' : newOf op (specLocate op) = some nw := hn
+  simp only [hn']
+  cases hr : versionRule st op.overwrite nw with
+  | error e => exact ⟨versionRule_err_ne_ok hr, rfl⟩
+  | ok ex => simp [ho]
+
+/-- **replace_iff**: an existing, answering plugin (its executable is there and reports
+version `vo`) is replaced by a usable source of the same name iff overwrite is requested or
+the new version is strictly higher -/
+theorem replace_iff (st : State) (op : Op) (nw : New) (hn : specNew op = some nw)
+    (hout : insideOwn op nw = false) (f : File) (hf : getExe st nw.name = some f) (vo : Text) (ha : metadata nw.name f = some vo) :
+    (install st op).1.err = .ok ↔ (op.overwrite = true ∨ compareVersions nw.version vo = some .gt) := by
+  rw [install_err st op nw hn hout]
+  simp only [versionRule, hf, ha]
+  rcases versionCheck_cases (some vo) op.overwrite nw.version with
+    ⟨ho, h⟩ | ⟨ho, hv', h⟩ | ⟨ho, vo', hv', ⟨h1, h⟩ | ⟨h1, h⟩ | ⟨h1, h⟩ | ⟨h1, h⟩⟩
+  all_goals (try cases hv')
+  all_goals (rw [ho] at h)
+  all_goals simp [h, ho]
+  all_goals simp [h1]
+
+/-- an existing plugin whose executable is there but does not answer (malfunctioning) is
+replaced iff overwrite is requested -/
+theorem malfunctioning_replaced_iff_overwrite (st : State) (op : Op) (nw : New) (hn : specNew op = some nw)
+    (hout : insideOwn op nw = false) (f : File) (hf : getExe st nw.name = some f) (ha : metadata nw.name f = none) :
+    (install st op).1.err = .ok ↔ op.overwrite = true := by
+  rw [install_err st op nw hn hout]
+  simp only [versionRule, hf, ha]
+  cases op.overwrite <;> simp [versionCheck]
+
+/-- no plugin of that name, or only a stale directory without its executable (interrupted
+installation, deleted binary): a usable source installs, with or without overwrite -/
+theorem absent_or_stale_installs (st : State) (op : Op) (nw : New)
+    (hn : specNew op = some nw) (hout : insideOwn op nw = false) (hp : getExe st nw.name = none) :
+    (install st op).1.err = .ok := by
+  rw [install_err st op nw hn hout]
+  simp [versionRule, hp]
+
 /-- a successful Install installed the plugin the source declares -/
 theorem install_ok_inv (st : State) (op : Op) (h : (install st op).1.err = .ok) :
     ∃ nw, specNew op = some nw ∧ (install st op).2 = replace st nw ∧
-      (install st op).1.new = some nw.version := by
+      (install st op).1.new = some nw.version ∧ insideOwn op nw = false := by
   unfold install at h ⊢
   rw [locate_eq_spec] at h ⊢
   cases hn : newOf op (specLocate op) with
@@ -513,7 +543,12 @@ theorem install_ok_inv (st : State) (op : Op) (h : (install st op).1.err = .ok) 
     | error e =>
       simp only [hr] at h
       exact absurd h (versionRule_err_ne_ok hr)
-    | ok ex => exact ⟨nw, hn, rfl, rfl⟩
+    | ok ex =>
+      by_cases hio : insideOwn op nw = true
+      · simp [hr, hio] at h
+      · have hio' : insideOwn op nw = false := by simpa using hio
+        simp only [hio']
+        exact ⟨nw, hn, rfl, rfl, hio'⟩
 
 theorem topFiles_sorted (es : List Entry) : Sorted File.name (topFiles es) := sorted_sortBy File.name _
 
@@ -615,10 +650,16 @@ theorem dir_locates_its_executable (es : List Entry) (f : File) (h : execs (topF
   have : e.exec = true := by rw [← hf] at hx; exact hx
   simp [he, this, hf]
 
-theorem dir_equals_file_source (st : State) (ow : Bool) (base : Text) (es : List Entry) (f : File)
-    (h : execs (topFiles es) = [f]) (e : Entry) (he : e.kind = .file) (hf : e.toFile = f) :
-    let opD : Op := ⟨.install, [], ow, true, base, es⟩
-    let opF : Op := ⟨.install, [], ow, false, f.name, [e]⟩
+/-- as coded: a source directory given as a symbolic link is not walked, so it is refused
+(and, like every refusal, changes nothing) -/
+theorem linked_directory_source_unusable (st : State) (op : Op) (hk : op.srcIsDir = true)
+    (hl : op.viaLink = true) : (install st op).1.err = .other ∧ (install st op).2 = st := by
+  simp [install, locate, hk, hl, newOf]
+
+theorem dir_equals_file_source (st : State) (ow : Bool) (base inn : Text) (lnk : Bool) (es : List Entry)
+    (f : File) (h : execs (topFiles es) = [f]) (e : Entry) (he : e.kind = .file) (hf : e.toFile = f) :
+    let opD : Op := ⟨.install, [], ow, true, base, inn, false, es⟩   -- not through a link: see `linked_directory_source_unusable`
+    let opF : Op := ⟨.install, [], ow, false, f.name, inn, lnk, [e]⟩
     (install st opD).1 = (install st opF).1 ∧
     (∀ nw, specNew opD = some nw →
         ∃ nw', specNew opF = some nw' ∧ nw'.name = nw.name ∧ nw'.version = nw.version ∧
@@ -626,8 +667,8 @@ theorem dir_equals_file_source (st : State) (ow : Bool) (base : Text) (es : List
           findBy File.name (binName nw.name) nw.files = some f) := by
   intro opD opF
   have hloc : specLocate opD = specLocate opF := by
-    simp only [specLocate, opD, opF]
-    exact dir_locates_its_executable es f h e he hf
+    have := dir_locates_its_executable es f h e he hf
+    simp [specLocate, opD, opF, this]
   have hmem : f ∈ execs (topFiles es) := by rw [h]; simp
   have hx : f.exec = true := by simpa using (List.mem_filter.1 hmem).2
   have hmk : specLocate opF = mkLocated f false := by
@@ -674,7 +715,9 @@ theorem dir_equals_file_source (st : State) (ow : Bool) (base : Text) (es : List
     have : versionRule st opD.overwrite nw = versionRule st opF.overwrite nw' := by
       simp [versionRule, hname, hver, opD, opF]
     rw [this]
-    cases versionRule st opF.overwrite nw' <;> simp [hver]
+    have hio : insideOwn opD nw = insideOwn opF nw' := by simp [insideOwn, opD, opF, hname]
+    cases versionRule st opF.overwrite nw' <;> simp [hver, hio]
+    split <;> rfl
 
 /-! ### invariants over arbitrary operation sequences -/
 
@@ -714,7 +757,10 @@ theorem step_state_cases (st : State) (op : Op) :
       simp only []
       cases versionRule st op.overwrite nw with
       | error e => exact Or.inl rfl
-      | ok ex => exact Or.inr (Or.inr (Or.inl ⟨nw, hn, trivial, rfl⟩))
+      | ok ex =>
+        by_cases hio : insideOwn op nw = true
+        · simp [hio]
+        · refine Or.inr (Or.inr (Or.inl ⟨nw, hn, trivial, ?_⟩)); simp [hio]
   | uninstall =>
     simp only [uninstall]
     by_cases hv : validName op.name = true
@@ -855,16 +901,16 @@ private def exeFoo (v : String) (cid : Nat) (exe : Bool := true) : Entry :=
   ⟨.file, t "notation-foo", exe, false, cid, some (sFoo v), []⟩
 private def extra (n : String) (cid : Nat) : Entry := ⟨.file, t n, false, false, cid, none, []⟩
 private def instFile (v : String) (cid : Nat) (ow : Bool := false) : Op :=
-  ⟨.install, [], ow, false, t "notation-foo", [exeFoo v cid]⟩
-private def instDir (es : List Entry) (ow : Bool := false) : Op := ⟨.install, [], ow, true, t "pkg", es⟩
+  ⟨.install, [], ow, false, t "notation-foo", [], false, [exeFoo v cid]⟩
+private def instDir (es : List Entry) (ow : Bool := false) : Op := ⟨.install, [], ow, true, t "pkg", [], false, es⟩
 private def seq (ops : List Op) : Input := ⟨"seq", false, ops, [], []⟩
 private def errs (i : Input) : List Err := (run i).steps.map (·.err)
 private def versions (i : Input) : List (List (Option Text)) := (run i).steps.map (fun s => s.root.map (·.version))
 
 -- upgrade replaces, equal and lower are refused with their classes, overwrite replaces
 example : errs (seq [instFile "1.0.0" 1, instFile "1.1.0-alpha" 2, instFile "1.1.0-alpha" 3, instFile "1.0.1" 4,
-    instFile "1.0.1" 5 true, instFile "1.0" 6, ⟨.uninstall, t "foo", false, false, [], []⟩,
-    ⟨.uninstall, t "foo", false, false, [], []⟩]) =
+    instFile "1.0.1" 5 true, instFile "1.0" 6, ⟨.uninstall, t "foo", false, false, [], [], false, []⟩,
+    ⟨.uninstall, t "foo", false, false, [], [], false, []⟩]) =
     [.ok, .ok, .equalVersion, .downgrade, .ok, .other, .ok, .notExist] := by decide
 example : versions (seq [instFile "1.0.0" 1, instFile "1.1.0-alpha" 2, instFile "1.0.1" 4, instFile "1.0.1" 5 true]) =
     [[some (t "1.0.0")], [some (t "1.1.0-alpha")], [some (t "1.1.0-alpha")], [some (t "1.0.1")]] := by decide
@@ -889,7 +935,7 @@ example : errs (seq [instDir [exeFoo "1.0.0" 1, exeBar true 2], instDir [exeFoo 
 `gox = true`) is refused as a single file, is made owner-executable as the only candidate of
 a directory, and does not count as a second executable next to a real one -/
 private def foo654 (v : String) (cid : Nat) : Entry := ⟨.file, t "notation-foo", false, true, cid, some (sFoo v), []⟩
-example : errs (seq [⟨.install, [], false, false, t "notation-foo", [foo654 "1.0.0" 1]⟩]) = [.other] := by decide
+example : errs (seq [⟨.install, [], false, false, t "notation-foo", [], false, [foo654 "1.0.0" 1]⟩]) = [.other] := by decide
 example : (run (seq [instDir [foo654 "1.0.0" 1]])).steps.map (·.root) =
     [[⟨t "foo", [fo "notation-foo" 1 true true], some (t "1.0.0")⟩]] := by decide
 example : (run (seq [instDir [exeBar true 1, foo654 "1.0.0" 2]])).steps.map (·.root) =
@@ -918,10 +964,10 @@ example : (clauses halfReplace halfReplaceObs).failed =
 /-- a stale directory (interrupted installation: `libfoo-1.so` landed, `notation-foo` did not):
 it is listed, cannot be fetched, counts as absent for Install - which succeeds without
 overwrite and ends with EXACTLY the source's files -, and Uninstall removes it -/
-private def plantFoo (es : List Entry) : Op := ⟨.plant, t "foo", false, false, [], es⟩
+private def plantFoo (es : List Entry) : Op := ⟨.plant, t "foo", false, false, [], [], false, es⟩
 private def stale : Input :=
   seq [plantFoo [extra "libfoo-1.so" 1, extra "LICENSE" 2], instDir [extra "libfoo-2.so" 3, exeFoo "1.0.0" 4],
-       plantFoo [extra "libfoo-1.so" 5], ⟨.uninstall, t "foo", false, false, [], []⟩]
+       plantFoo [extra "libfoo-1.so" 5], ⟨.uninstall, t "foo", false, false, [], [], false, []⟩]
 example : (run stale).steps.map (fun s => (s.err, s.root, s.listed)) =
     [(.ok, [⟨t "foo", [fo "LICENSE" 2 false, fo "libfoo-1.so" 1 false], none⟩], [t "foo"]),
      (.ok, [⟨t "foo", [fo "libfoo-2.so" 3 false, fo "notation-foo" 4 true], some (t "1.0.0")⟩], [t "foo"]),
@@ -935,8 +981,27 @@ example : Holds (seq [plantFoo [extra "libfoo-1.so" 1], instDir [exeFoo "1.0.0" 
 /-- a malfunctioning existing plugin (its executable is there but does not answer) is kept
 without overwrite and replaced with overwrite; deleting only the binary makes it "absent" -/
 example : errs (seq [plantFoo [⟨.file, t "notation-foo", true, false, 1, some ⟨t "foo", t "1.0.0", false⟩, []⟩],
-    instFile "2.0.0" 2, instFile "2.0.0" 3 true, ⟨.rmexe, t "foo", false, false, [], []⟩, instFile "1.0.0" 4]) =
+    instFile "2.0.0" 2, instFile "2.0.0" 3 true, ⟨.rmexe, t "foo", false, false, [], [], false, []⟩, instFile "1.0.0" 4]) =
     [.ok, .other, .ok, .ok, .ok] := by decide
+
+/-- the source is the installed plugin's own directory / its own executable (also through a
+symbolic link): refused, nothing changes - `equalVersion` without overwrite (the version
+check comes first), the guard with overwrite; from ANOTHER plugin's directory it installs -/
+private def fromRoot (dirName : String) (isDir : Bool) (es : List Entry) (ow : Bool) (lnk : Bool := false) : Op :=
+  ⟨.install, [], ow, isDir, if isDir then t dirName else t "notation-foo", t dirName, lnk, es⟩
+private def selfSrc : Input :=
+  seq [instFile "1.0.0" 1, fromRoot "foo" true [exeFoo "1.0.0" 1] false, fromRoot "foo" true [exeFoo "1.0.0" 1] true,
+       fromRoot "foo" false [exeFoo "1.0.0" 1] true true,
+       ⟨.plant, t "bar", false, false, [], [], false, [exeFoo "2.0.0" 2, extra "LICENSE" 3]⟩,
+       fromRoot "bar" true [exeFoo "2.0.0" 2, extra "LICENSE" 3] false]
+example : errs selfSrc = [.ok, .equalVersion, .other, .other, .ok, .ok] := by decide
+example : ((run selfSrc).steps.map (·.root)).getLast? =
+    some [⟨t "bar", [fo "LICENSE" 3 false, fo "notation-foo" 2 true], none⟩,
+          ⟨t "foo", [fo "LICENSE" 3 false, fo "notation-foo" 2 true], some (t "2.0.0")⟩] := by decide
+/-- what the code did before 3106bc6: an error AND the plugin gone. `Holds` is false of it. -/
+example : Holds (seq [instFile "1.0.0" 1, fromRoot "foo" true [exeFoo "1.0.0" 1] true])
+    ⟨[⟨.ok, none, some (t "1.0.0"), [⟨t "foo", [fo "notation-foo" 1 true], some (t "1.0.0")⟩], [t "foo"]⟩,
+      ⟨.other, none, none, [], []⟩], false, false, none⟩ = false := by decide
 
 /-- a downgrade that "succeeds" violates the version rule clause -/
 example : Holds (seq [instFile "1.1.0" 1, instFile "1.0.0" 2])
